@@ -1,7 +1,7 @@
 (** Extraction of the executable 6502 semantics (engine "sem") used for co-execution. *)
 From Coq Require Import ExtrOcamlBasic ExtrOcamlString.
-From CC Require Import Base.Str Asm.Lines Asm.Operand M6502.Isa M6502.Sem Model.WfCode Model.AsmSel.
+From CC Require Import Base.Str Asm.Lines Asm.Operand M6502.Isa M6502.Sem Model.WfCode Model.AsmSel Model.CallGraph.
 Extraction Language OCaml.
 Extraction "../build/ocaml/sem_model.ml"
   mnem_of_name mnem_name slines_of sline_of run_function mkCfg mkS mem_empty mset mget
-  resolved_size shape_of parse_operand legal resolve enc_size wf_check asm_sel print_popnd instr_of mkVar.
+  resolved_size shape_of parse_operand legal resolve enc_size wf_check asm_sel print_popnd instr_of mkVar in_use.
